@@ -7,6 +7,7 @@ from typing import Any, Dict, List
 
 from hypothesis import strategies as st
 
+from taskiq import Context, TaskiqDepends
 from taskiq.kicker import AsyncKicker
 from taskiq.receiver import Receiver
 
@@ -31,6 +32,7 @@ RULE = (
     "processing message i (attributed through a context variable set when its callback starts, inherited by every task it spawns) shows message i's id, argument "
     "and label; the result stored under id i is the value execution i returned. Non-trivial: >=2 executions overlap in "
     "virtual time and some Context-reading node is un-cached or below an un-cached node; distinct = canonical JSON."
+    " Part inmemory_backend also runs, with InMemoryBroker in both modes plus SimpleRetryMiddleware, tasks that kick a sub-task (executed inside kiq() when await_inplace) and then fail 1-3 times: every attempt sees its own message's argument and the results under parent and child ids are their own."
 )
 ASSUMPTIONS = ["virtual-time loop; an echo is attributed to the execution whose callback task made it",
                "deliveries are driven through Receiver.callback directly (one asyncio task per message), as Receiver.runner does"]
@@ -307,7 +309,74 @@ def inmemory_cases() -> Any:
     return st.fixed_dictionaries({
         "inmemory": st.just(True), "cap": st.sampled_from([-1, 1, 2, 3, 5]), "n": st.integers(1, 9),
         "inplace": st.booleans(), "resend": st.sampled_from([False, False, True]),       # resend: one id is used twice
+        # nested: every message's task kicks a sub-task (run inside kiq() when await_inplace) and then fails once; the bundled
+        # retry middleware sends it again under the same id
+        "nested": st.sampled_from([False, False, True]), "fails": st.integers(1, 3),
     })
+
+
+def run_nested_case(c: Dict[str, Any]) -> Outcome:
+    from taskiq import InMemoryBroker, SimpleRetryMiddleware
+
+    out = Outcome()
+    out.clauses_checked = ["C06.a", "C06.b"]
+    n = c["n"]
+
+    async def main() -> None:
+        b = InMemoryBroker(await_inplace=c["inplace"]).with_middlewares(SimpleRetryMiddleware(default_retry_count=c["fails"] + 1))
+        seen: List[Any] = []
+
+        async def child(k: int, ctx: Context = TaskiqDepends()) -> Dict[str, Any]:
+            seen.append((ctx.message.task_id, k))
+            await asyncio.sleep(0)
+            return {"produced_by": k}
+
+        async def parent(k: int, ctx: Context = TaskiqDepends()) -> Dict[str, Any]:
+            tid = ctx.message.task_id
+            seen.append((tid, k))
+            att = int(ctx.message.labels.get("_retries", 0))
+            if att < c["fails"]:
+                await AsyncKicker("inmem.child", b, {}).with_task_id(f"c{att}-{tid}").kiq(k + 1000 * (att + 1))
+                await asyncio.sleep(0)
+                raise RuntimeError("attempt fails")
+            return {"produced_by": k}
+
+        child.__module__ = parent.__module__ = __name__
+        b.register_task(child, task_name="inmem.child")
+        b.register_task(parent, task_name="inmem.parent", retry_on_error=True)
+        kicks = [AsyncKicker("inmem.parent", b, {"retry_on_error": True}).with_task_id(f"p{k}").kiq(k) for k in range(n)]
+        if c["inplace"]:
+            for kc in kicks:
+                await kc
+        else:
+            await asyncio.gather(*kicks)
+            for _ in range(4 * (c["fails"] + 2)):
+                await b.wait_all()
+                await asyncio.sleep(0)
+        want = {f"p{k}": k for k in range(n)}
+        for k in range(n):
+            for att in range(c["fails"]):
+                want[f"c{att}-p{k}"] = k + 1000 * (att + 1)
+        for tid, k in seen:
+            if want.get(tid) != k:
+                out.add("C06.a", f"an execution of the message with id {tid} received argument {k}; that message was sent with {want.get(tid)} "
+                                 f"(await_inplace={c['inplace']}, sub-task kicked inside a failing, retried task)")
+                return
+        for tid, k in want.items():
+            if not await b.result_backend.is_result_ready(tid):
+                out.add("C06.b", f"no result stored under {tid} after all executions finished (await_inplace={c['inplace']})")
+                return
+            r = await b.result_backend.get_result(tid)
+            if r.is_err or r.return_value != {"produced_by": k}:
+                out.add("C06.b", f"the result stored under {tid} is {short(r.return_value, 80)} (is_err={r.is_err}); the message carrying that id was sent with {k} "
+                                 f"(await_inplace={c['inplace']}, sub-task kicked inside a failing, retried task)")
+                return
+        await b.shutdown()
+
+    asyncio.run(main())
+    out.nontrivial = True
+    out.classes = ["inmemory_nested_retry", "inplace" if c["inplace"] else "create_task"]
+    return out
 
 
 def run_inmemory_case(c: Dict[str, Any]) -> Outcome:
@@ -366,4 +435,6 @@ def parts(tier: str) -> List[Part]:  # type: ignore[no-redef]
 
 
 def run_case(c: Dict[str, Any]) -> Outcome:  # type: ignore[no-redef]
+    if c.get("inmemory") and c.get("nested"):
+        return run_nested_case(c)
     return run_inmemory_case(c) if c.get("inmemory") else _base_run06(c)
